@@ -476,4 +476,120 @@ theorem cdilate_bounds (f g : Img Int) (hshape : g.shape = f.shape) (hs : ∀ d 
 
 end cond
 
+/-! ### top-hats -/
+
+theorem submElem_of_le (dt : DT) (hlo : dt.lo = 0) (a b : Int) (h : b ≤ a) : submElem dt a b = a - b := by
+  unfold submElem DT.signed
+  simp only [hlo, Int.lt_irrefl, decide_false, Bool.false_eq_true, if_false]
+  have : ¬ b > a := by omega
+  simp only [this, if_false]
+
+theorem tophatOpen_exact (dt : DT) (hlo : dt.lo = 0) (f : Img Int) (sup : List (List Int × Int))
+    (hle : LeImg (openModel dt f sup) f) :
+    ∀ i, i < shapeSize f.shape →
+      (tophatOpenModel dt f sup).data.getD i 0 = f.data.getD i 0 - (openModel dt f sup).data.getD i 0 := by
+  intro i hi
+  unfold tophatOpenModel submModel
+  rw [map2_getD _ f _ i hi]
+  exact submElem_of_le dt hlo _ _ (hle i hi)
+
+theorem tophatClose_exact (dt : DT) (hlo : dt.lo = 0) (f : Img Int) (sup : List (List Int × Int))
+    (hle : LeImg f (closeModel dt f sup)) :
+    ∀ i, i < shapeSize f.shape →
+      (tophatCloseModel dt f sup).data.getD i 0 = (closeModel dt f sup).data.getD i 0 - f.data.getD i 0 := by
+  intro i hi
+  unfold tophatCloseModel submModel
+  rw [map2_getD _ (closeModel dt f sup) f i hi]
+  exact submElem_of_le dt hlo _ _ (hle i hi)
+
+/-- an unsigned image whose values stay `h` below the maximum for every height `h` of the element
+    dilates without reaching the maximum -/
+theorem hiClear_dilate_unsigned (dt : DT) (wf : dt.WF) (hlo : dt.lo = 0) (sup : List (List Int × Int))
+    (hsup : ∀ kh ∈ sup, dt.InRange kh.2) (F : Img Int) (hs : ∀ d ∈ F.shape, 0 < d) (hF : RangeImg dt F)
+    (hcl : ∀ i, i < shapeSize F.shape → ∀ kh ∈ sup, F.data.getD i 0 + kh.2 < dt.hi) :
+    HiClear dt (dilateImg dt F sup) := by
+  intro j hj
+  have hj' : j < shapeSize F.shape := hj
+  refine Or.inr ?_
+  have : (dilateImg dt F sup).data.getD j 0 ≤ dt.hi - 1 := by
+    rw [dilate_le_iff dt hlo F sup hs j hj']
+    refine ⟨by have := wf.hi_pos; omega, fun i hi _ kh hkh _ => ?_⟩
+    have hr := hsup kh hkh
+    have h0 : 0 ≤ kh.2 := by have := hr.1; omega
+    rw [dilateAdd_spec dt wf _ kh.2 (hF i hi) hr h0]
+    have := hcl i hi kh hkh
+    have := hF i hi
+    have := wf.hi_pos
+    unfold DT.InRange DT.clamp at *
+    split <;> omega
+  omega
+
+/-! ### boolean duality -/
+
+/-- scatter/gather symmetry of the element on an image shape: pixel `i` reaches `j` through some
+    offset iff `j` reaches `i`. True of symmetric, coordinate-wise star-shaped elements (centred
+    cross, box, disk) — F12 of the design, proved in `design-notes/spikes/StarScatterGatherSpike.lean`
+    for coordinates `Fin d → ℤ`; here it is a hypothesis. -/
+def ScatterGatherSym (shape : List Nat) (sup : List (List Int × Int)) : Prop :=
+  ∀ i j, i < shapeSize shape → j < shapeSize shape →
+    ((∃ kh ∈ sup, tgt shape i kh.1 = j) ↔ (∃ kh ∈ sup, tgt shape j kh.1 = i))
+
+theorem bool_scalar (sup : List (List Int × Int)) (hsup : ∀ kh ∈ sup, kh.2 ≠ 0) (kh : List Int × Int)
+    (hkh : kh ∈ sup) (a : Int) (ha : a = 0 ∨ a = 1) :
+    erodeSub dtBool a kh.2 = a ∧ dilateAdd dtBool a kh.2 = a := by
+  have hh := hsup kh hkh
+  unfold erodeSub dilateAdd
+  rcases ha with rfl | rfl <;> simp [dtBool, hh]
+
+/-- the complement of a boolean image -/
+def notImg (F : Img Int) : Img Int := map2 (fun a _ => 1 - a) F F
+
+theorem bool_duality (F : Img Int) (sup : List (List Int × Int)) (hsup : ∀ kh ∈ sup, kh.2 ≠ 0)
+    (hs : ∀ d ∈ F.shape, 0 < d) (hlen : ∀ kh ∈ sup, kh.1.length = F.shape.length)
+    (hF : RangeImg dtBool F) (hsg : ScatterGatherSym F.shape sup) :
+    ∀ j, j < shapeSize F.shape →
+      (dilateImg dtBool F sup).data.getD j 0 = 1 - (erodeImg dtBool (notImg F) sup).data.getD j 0 := by
+  have sc := scalars_bool sup hsup
+  have h01 : ∀ i, i < shapeSize F.shape → F.data.getD i 0 = 0 ∨ F.data.getD i 0 = 1 := by
+    intro i hi; have := hF i hi; simp only [DT.InRange, dtBool] at this; omega
+  have hN : ∀ i, i < shapeSize F.shape → (notImg F).data.getD i 0 = 1 - F.data.getD i 0 :=
+    fun i hi => map2_getD _ F F i hi
+  have hNr : RangeImg dtBool (notImg F) := by
+    intro i hi
+    have hi' : i < shapeSize F.shape := hi
+    rw [hN i hi']
+    rcases h01 i hi' with h | h <;> simp [h, DT.InRange, dtBool]
+  have hDr := range_dilate dtBool sup sc F hs hF
+  have hEr := range_erode dtBool sup sc (notImg F) hs hlen hNr
+  intro j hj
+  have hDj : 0 ≤ (dilateImg dtBool F sup).data.getD j 0 ∧ (dilateImg dtBool F sup).data.getD j 0 ≤ 1 :=
+    hDr j hj
+  have hEj : 0 ≤ (erodeImg dtBool (notImg F) sup).data.getD j 0 ∧
+      (erodeImg dtBool (notImg F) sup).data.getD j 0 ≤ 1 := hEr j hj
+  apply Int.le_antisymm
+  · rw [dilate_le_iff dtBool rfl F sup hs j hj]
+    refine ⟨by omega, fun i hi hne kh hkh ht => ?_⟩
+    have hFi : F.data.getD i 0 = 1 := by rcases h01 i hi with h | h; exact absurd h hne; exact h
+    rw [hFi, (bool_scalar sup hsup kh hkh 1 (Or.inr rfl)).2]
+    obtain ⟨kh', hkh', ht'⟩ := (hsg i j hi hj).mp ⟨kh, hkh, ht⟩
+    have := ((le_erode_iff dtBool (notImg F) sup hs hlen j hj _).mp (Int.le_refl _)).2 kh' hkh'
+    have hshape : (notImg F).shape = F.shape := rfl
+    rw [hshape, ht', hN i hi, hFi, (bool_scalar sup hsup kh' hkh' _ (Or.inl (by omega))).1] at this
+    omega
+  · have : 1 - (dilateImg dtBool F sup).data.getD j 0 ≤ (erodeImg dtBool (notImg F) sup).data.getD j 0 := by
+      rw [le_erode_iff dtBool (notImg F) sup hs hlen j hj]
+      refine ⟨by show _ ≤ (1 : Int); omega, fun kh hkh => ?_⟩
+      have hshape : (notImg F).shape = F.shape := rfl
+      rw [hshape]
+      have ht := tgt_lt F.shape hs j hj kh.1 (hlen kh hkh)
+      rw [hN _ ht]
+      rcases h01 _ ht with h | h
+      · rw [h, (bool_scalar sup hsup kh hkh _ (Or.inr (by omega))).1]; omega
+      · rw [h, (bool_scalar sup hsup kh hkh _ (Or.inl (by omega))).1]
+        obtain ⟨kh', hkh', ht'⟩ := (hsg j _ hj ht).mp ⟨kh, hkh, rfl⟩
+        have := ((dilate_le_iff dtBool rfl F sup hs j hj _).mp (Int.le_refl _)).2 _ ht (by omega) kh' hkh' ht'
+        rw [h, (bool_scalar sup hsup kh' hkh' 1 (Or.inr rfl)).2] at this
+        omega
+    omega
+
 end Mahotas.C02
